@@ -40,6 +40,15 @@ def first_clause(cl):
     return cl[0] if cl else "?"
 
 
+def sig_of(what, regime, clause):
+    """<api or action>:<regime>:<first violated clause | error | process_abort | hang>.  In the page_overflow regime node
+    pages overwrite their own slot directory: behaviour is arbitrary, so only the KIND of failure is kept."""
+    if regime == "page_overflow" and not what.startswith("sql_"):
+        kind = clause if clause in ("process_abort", "hang", "error", "panic") else "search_clause"
+        return "page_overflow:" + kind
+    return "%s:%s:%s" % (what, regime, clause)
+
+
 def _cfg(name, repl, tag):
     txt = open(os.path.join(vlib.SPEC, name)).read()
     for a, b in repl:
@@ -120,7 +129,7 @@ def classify_all(chk, cases, results, counts, tobs, tmine, rng):
             i = crash.get("step") if isinstance(crash.get("step"), int) else len(r["steps"])
             i = min(i, len(hist) - 1)
             what = hist[i]["a"] if crash.get("phase") == "action" else "search"
-            sig = "%s:%s:%s" % (what, hist[i]["regime"], "hang" if crash.get("kind") == "hang" else "process_abort")
+            sig = sig_of(what, hist[i]["regime"], "hang" if crash.get("kind") == "hang" else "process_abort")
             counts["sig"][sig] = counts["sig"].get(sig, 0) + 1
             counts["crashes"] = counts.get("crashes", 0) + 1
             chk.classify(sig, {"case": c, "step": i, "crash": crash, "regime": hist[i]["regime"]})
@@ -137,14 +146,14 @@ def classify_all(chk, cases, results, counts, tobs, tmine, rng):
                 ok = s == "ok"
             if not ok:
                 kind = "panic" if isinstance(s, dict) and "panic" in s else "error"
-                sig = "%s%s:%s:%s" % ("sql_" if c["mode"] == "sql" else "", hist[i]["a"], hist[i]["regime"], kind)
+                sig = sig_of(("sql_" if c["mode"] == "sql" else "") + hist[i]["a"], hist[i]["regime"], kind)
                 counts["sig"][sig] = counts["sig"].get(sig, 0) + 1
                 chk.classify(sig, {"case": c, "step": i, "action": {k: hist[i][k] for k in ("a", "id", "v", "lvl")}, "result": s})
         for v in r["viol"]:
             if v.get("api") == "dml":
                 continue    # reported above as an action result
             st = hist[v["step"]]
-            sig = "%s:%s:%s" % (v["api"], st["regime"], first_clause(v["clauses"]))
+            sig = sig_of(v["api"], st["regime"], first_clause(v["clauses"]))
             counts["sig"][sig] = counts["sig"].get(sig, 0) + 1
             chk.classify(sig, {"case": c, "step": v["step"], "observation": v, "live": st["live"], "vecs": st["vecs"], "regime": st["regime"]})
             if "R" in v and v.get("err") is None and st["vecs"] and v["api"] in ("search", "search_filtered", "sql_order_by"):
@@ -193,7 +202,7 @@ def sq8_part(chk, sq, counts):
             if isinstance(dec, dict):
                 chk.classify("sq8:%s:%s:error" % (api, rng_class), {"case": c, "result": r})
                 continue
-            step = c["step"] - (2 if selftest and c["step"] == 4 else 0)
+            step = c["step"] - (3 if selftest and c["step"] == 4 else 0)
             if len(dec) != len(c["u"]):
                 chk.classify("sq8:%s:%s:length" % (api, rng_class), {"case": c, "result": r})
                 continue
